@@ -131,6 +131,12 @@ func c17Families() []c17Family {
 		in := chain(ops)
 		fams = append(fams, c17Family{name: "arithmetic, operator pattern " + ops, build: arith, input: in, check: refValue(in)})
 	}
+	// the same language with one left-recursive alternative per operator (two alternatives of a rule start with the rule)
+	split := func() parsley.Parser { return ArithParserSplit() }
+	for _, ops := range []string{"+-", "*/+"} {
+		in := chain(ops)
+		fams = append(fams, c17Family{name: "arithmetic with one alternative per operator, operator pattern " + ops, build: split, input: in, check: refValue(in)})
+	}
 	inPar := func(n int) string { d := n / 2; return strings.Repeat("(", d) + "1" + strings.Repeat(")", d) }
 	fams = append(fams, c17Family{scale: 0.7, name: "arithmetic, nested parentheses", build: arith, input: inPar, check: refValue(inPar)})
 
@@ -381,7 +387,7 @@ func c17Replay(raw json.RawMessage) *explore.Result {
 	known := map[int]int{}
 	// rebuild the work caps the exploration had: parse half the size first (when the case is an even size >= 16)
 	if c.N >= 16 && c.N%2 == 0 {
-		if h, _, _, _, capped := c17Count(&fams[c.Family], fams[c.Family].build(), c.N/2, 0); !capped {
+		if h, _, _, _, capped := c17Count(&fams[c.Family], fams[c.Family].build(), c.N/2, 8000000); !capped {
 			known[c.N/2] = h
 		}
 	}
@@ -396,7 +402,7 @@ func init() {
 	explore.Register(&explore.Check{
 		ID:    "C17",
 		Level: "exploration",
-		Rule: "19 families of unambiguous grammars (direct, mutual and hidden left recursion, expr/term/factor arithmetic with three operator patterns and nested parentheses, nested brackets on nested and flat inputs, separated lists, a precedence ladder of six left-recursive levels, brackets whose alternatives share a prefix, and five families of REJECTED inputs — wrong first byte, dangling operator, missing closer, trailing garbage) x EVERY size n from 4 to the bound: the canonical inputs of size n and 2n are parsed; calls(2n) <= 16*calls(n) for n >= 8, identical call count on a freshly built grammar, parse succeeds with the expected value; " +
+		Rule: "21 families of unambiguous grammars (direct, mutual and hidden left recursion, expr/term/factor arithmetic (operators as one alternative, and one left-recursive alternative per operator) with several operator patterns and nested parentheses, nested brackets on nested and flat inputs, separated lists, a precedence ladder of six left-recursive levels, brackets whose alternatives share a prefix, and five families of REJECTED inputs — wrong first byte, dangling operator, missing closer, trailing garbage) x EVERY size n from 4 to the bound: the canonical inputs of size n and 2n are parsed; calls(2n) <= 16*calls(n) for n >= 8, identical call count on a freshly built grammar, parse succeeds with the expected value; " +
 			"evaluation = one (family, n) pair; every evaluated pair is non-trivial (a successful parse of a left-recursive or nested input); a bounded statement about these families and lengths, not a proof of a polynomial bound",
 		Assume: []string{"Context.CallCount is the work measure the property names; ambiguous inputs (e.g. x-prefixed inputs of P -> x? P b | a) are outside the property and excluded"},
 		Shards: func(string) int { return len(c17Families()) },
